@@ -47,8 +47,8 @@ func buildPlan(id string, pinned map[string]string, tier string) *Plan {
 		}
 		p.Trusted = []string{"pinned moduli in /verif/contracts/params.json", "axiomatic semantics of encoding/binary big/little-endian accessors"}
 		p.Trusted = append(p.Trusted, "SetString: the parser of math/big (big.Int.SetString with base 0) is a pair of uninterpreted functions of the characters (accepts / value); Element.SetBigInt enters through its assumed contract (z = v mod q); the big.Int pool is an opaque call")
-		p.NotCovered = []string{"SetBytes / SetBigInt / BigInt / Text / JSON (math/big, strconv): not under contract (SetBigInt: assumed contract)", "Vector ReadFrom / AsyncReadFrom / WriteTo / MarshalBinary: not under contract"}
-		p.Note = "Canonical byte decoders accept exactly encodings below q; encoders and decoders are mutually inverse (lemma functions verified from the two contracts); integer setters produce the residue mod q; comparisons act on the regular value; SetString accepts exactly the strings math/big accepts in base 0, sets the residue mod q of the integer they denote, and otherwise returns (nil, error) with z untouched."
+		p.NotCovered = []string{"SetBytes / SetBigInt / BigInt / Text / JSON (math/big, strconv): not under contract (SetBigInt: assumed contract)", "Vector AsyncReadFrom (goroutines) / MarshalBinary / UnmarshalBinary: not under contract; of ReadFrom / WriteTo the decoded values are not stated (the reader is opaque), only acceptance-implies-check and the byte counts"}
+		p.Note = "Canonical byte decoders accept exactly encodings below q; encoders and decoders are mutually inverse (lemma functions verified from the two contracts); integer setters produce the residue mod q; comparisons act on the regular value; SetString accepts exactly the strings math/big accepts in base 0, sets the residue mod q of the integer they denote, and otherwise returns (nil, error) with z untouched. Vector.ReadFrom returns nil only if the length prefix and every element buffer were read completely and every element decoder accepted its buffer, and then reports 4 + Bytes*len bytes; Vector.WriteTo returns nil only if every write succeeded, and then reports 4 + Bytes*len bytes."
 		return p
 	case "C02":
 		p := &Plan{ID: id}
@@ -130,12 +130,13 @@ func buildPlan(id string, pinned map[string]string, tier string) *Plan {
 			}
 		}
 		p.Trusted = []string{"ring layer: coordinate decoders (SetBytesCanonical: proved under C08) are opaque here, only their error result is used",
+			"streaming codecs: the dynamic type of the value is fixed per contract variant (dyntype); readers, writers, reflect and the element / point codecs are opaque calls whose error results are captured at every call",
 			"IsInSubGroup is an assumed pure predicate (exactness of the subgroup test is number theory); IsOnCurve is used through its C02 contract",
 			"Sqrt returns a square root or nil (C01 contract of Sqrt is not yet proved: assumed at this layer)"}
 		p.NotCovered = []string{"G2 decoders over an extension field: the sign selection of the recovered Y and the value Y^2 = X^3 + b' are not stated (the extension-field methods are opaque calls: the clauses say that Legendre and Sqrt were applied to the same YSquared object and that Legendre != -1)",
-			"encoders (Bytes / RawBytes), round trip Bytes/SetBytes, streaming Encoder / Decoder (reflection, io.Reader chunking, parallel Y recovery): not under contract",
+			"encoders (Bytes / RawBytes) and the round trip Bytes/SetBytes: not under contract; streaming Encoder / Decoder: the slices-of-points cases of the decoder (parallel Y recovery), the reflection fallback, the byte counters and the length prefixes are not under contract (the other dynamic types are: one contract variant each)",
 			"secp256k1 (different decoder shape) and twisted-Edwards point decoding: not under contract (twistededwards.PointAffine.SetBytes has no rejection path at all: see DESIGN.md findings)"}
-		p.Note = "G2Affine.setBytes of the 7 curves with a G2 decoder: same acceptance-implies-check clauses with all 2k (raw) / k (compressed) base-field coordinates decoded canonically (k = extension degree), the Legendre test and the square root applied to the same value. G1Affine.setBytes / unsafeSetCompressedBytes of every curve with the generated decoder: a nil error is returned only if the flag pattern is valid, the coordinates decoded canonically, infinity encodings are all-zero (every payload byte of the compressed, resp. raw, length is zero: stated over the input bytes), an uncompressed point passed the subgroup test or (when disabled) the on-curve test, a compressed point has Y = +-sqrt(X^3+b) with the sign selected by the flag and passed the subgroup test when enabled; byte counts match; short buffers give errors (no panic: all slice bounds are obligations)."
+		p.Note = "G2Affine.setBytes of the 7 curves with a G2 decoder: same acceptance-implies-check clauses with all 2k (raw) / k (compressed) base-field coordinates decoded canonically (k = extension degree), the Legendre test and the square root applied to the same value. G1Affine.setBytes / unsafeSetCompressedBytes of every curve with the generated decoder: a nil error is returned only if the flag pattern is valid, the coordinates decoded canonically, infinity encodings are all-zero (every payload byte of the compressed, resp. raw, length is zero: stated over the input bytes), an uncompressed point passed the subgroup test or (when disabled) the on-curve test, a compressed point has Y = +-sqrt(X^3+b) with the sign selected by the flag and passed the subgroup test when enabled; byte counts match; short buffers give errors (no panic: all slice bounds are obligations). Streaming codecs, one contract variant per dynamic type of the value (Decoder.Decode: *[][]uint64, *[]uint64, *fr/fp.Element, *[]fr/fp.Element, *[][]fr.Element, *[][][]fr.Element, *G1Affine, *G2Affine; Encoder.encode / encodeRaw: the corresponding values and []G1Affine / []G2Affine): nil is returned only if every read / write and every element or point codec that was called returned no error (no error of an earlier item is overwritten by a later one), and a point is written as exactly the bytes its own Bytes / RawBytes returned."
 		return p
 	case "C17":
 		p := &Plan{ID: id}
@@ -250,7 +251,7 @@ func buildPlan(id string, pinned map[string]string, tier string) *Plan {
 		p.NotCovered = []string{"the statement of the property itself: that the composition of these kernels over log2(n) stages, with the documented bit-reversed ordering, the coset scaling, the goroutine split and every option, is the discrete Fourier transform (Cooley-Tukey induction over a goroutine-split recursion) is NOT decided by these contracts",
 			"unrolled kernels kerDIFNP_32 / kerDITNP_256 / ..., AVX-512 kernels of the 31-bit fields, difFFT / ditFFT recursion, FFT / FFTInverse entry points (closures handed to parallel.Execute), BitReverse (cobra variants), the contents of the precomputed tables (preComputeTwiddles: goroutines, assumed frame), Domain serialisation: not under contract",
 			"default build: Vector.Mul is an assembly routine on amd64, so the kernels with a twiddle table are verified for the portable build only"}
-		p.Note = "Partial: the four radix-2 butterfly kernels of every FFT package (with and without a twiddle table, decimation in time and in frequency) perform exactly the butterfly a[i], a[i+m] <- a[i] + a[i+m], (a[i] - a[i+m]) t_i (resp. a[i] + t_i a[i+m], a[i] - t_i a[i+m]) on every pair of the requested range with t_0 = 1, t_i = twiddles[i] or at*w^(i-start), touch nothing else, and never index out of range under the stated size preconditions; precomputeExpTableChunk fills table[j] = w^power * w^j. A change inside a kernel that alters any output entry fails a named obligation. NewDomain (default build, 10 packages): the cardinality is the value of ecc.NextPowerOfTwo(m), the generator the value of Generator(m) (an error is a panic, not a result), the coset shift the option's shift when one is given and GeneratorFullMultiplicativeGroup() otherwise, the precompute flag the option's, and GeneratorInv, CardinalityInv, FrMultiplicativeGenInv are the inverses of Generator, Cardinality, FrMultiplicativeGen as stored in the returned domain."
+		p.Note = "Partial: the four radix-2 butterfly kernels of every FFT package (with and without a twiddle table, decimation in time and in frequency) perform exactly the butterfly a[i], a[i+m] <- a[i] + a[i+m], (a[i] - a[i+m]) t_i (resp. a[i] + t_i a[i+m], a[i] - t_i a[i+m]) on every pair of the requested range with t_0 = 1, t_i = twiddles[i] or at*w^(i-start), touch nothing else, and never index out of range under the stated size preconditions; precomputeExpTableChunk fills table[j] = w^power * w^j. A change inside a kernel that alters any output entry fails a named obligation. NewDomain (default build, 10 packages): the cardinality is the value of ecc.NextPowerOfTwo(m), the generator the value of Generator(m) (an error is a panic, not a result), the coset shift the option's shift when one is given and GeneratorFullMultiplicativeGroup() otherwise, the precompute flag the option's, and GeneratorInv, CardinalityInv, FrMultiplicativeGenInv are the inverses of Generator, Cardinality, FrMultiplicativeGen as stored in the returned domain. Domain.ReadFrom decodes a field only from a buffer that the read filled completely (io.Reader may return short reads: assumed contract) and returns nil only then."
 		return p
 	case "C11":
 		p := &Plan{ID: id}
